@@ -138,12 +138,16 @@ func Verif_C15_gate_sequence() {
 	verifapi.Assert("register", wk.w.RegisterWorker("cmd", verifCmdCfg().NewWorker, true) == nil)
 	wk.w.VerifyingKey = "/keys/pub.pem"
 	thePub := &rsa.PublicKey{E: 65537}
+	expired := false // the good token's lifetime runs out between the two commands
 	verifapi.Redirect("github.com/ansible/receptor/pkg/certificates.LoadPublicKey", func(filename string, osw certificates.Oser) (*rsa.PublicKey, error) {
 		return thePub, nil
 	})
 	verifapi.Redirect("github.com/golang-jwt/jwt/v4.ParseWithClaims", func(tokenString string, claims jwt.Claims, keyFunc jwt.Keyfunc, options ...jwt.ParserOption) (*jwt.Token, error) {
 		if tokenString != "good" {
 			return nil, fmt.Errorf("signature is invalid")
+		}
+		if expired {
+			return nil, fmt.Errorf("token is expired")
 		}
 		rc := claims.(*jwt.RegisteredClaims)
 		rc.Audience = []string{"A"}
@@ -181,9 +185,11 @@ func Verif_C15_gate_sequence() {
 	_ = err1
 	unitsMid := len(wk.w.activeUnits)
 	opsMid := verifapi.FSOps()
-	// second: the same command over TCP with no token / a bad one
+	// second: the same command over TCP with no token / a bad one / the token accepted before, which has expired meanwhile
 	cfo := verifNewCFO("tcp")
-	_, err2 := wk.verifCommand(cfo, mk([]string{"", "bad"}[verifapi.Choose(2)]))
+	tok2 := []string{"", "bad", "good"}[verifapi.Choose(3)]
+	expired = true
+	_, err2 := wk.verifCommand(cfo, mk(tok2))
 	verifapi.Quiesce()
 	verifapi.Cover("second-command")
 	verifapi.Assert("later-unauthorised-command-refused", err2 != nil)
